@@ -42,25 +42,29 @@ type ModTarget struct {
 }
 
 type FuncContract struct {
-	Pkg       string // package name of the file the contract was read from
-	Key       string // canonical short function name
-	Props     []string
-	Requires  []Clause
-	Ensures   []Clause
-	Modifies  []ModTarget // nil: unspecified
-	HasMod    bool
-	Loops     map[int]*LoopSpec
-	Asserts   []PointAssert
-	Trusted   bool
-	Inline    bool
-	GhostSets []GhostSet      // ghost assignments performed on entry (specification state updated by this function)
-	OwnWrites []string        // heap key prefixes: stores into these keys must target objects allocated by this activation
-	Calls     []string        // parameters holding functions the callee may invoke: their write sets are added at call sites
-	Reveal    map[string]bool // opaque spec functions unfolded while verifying this function
-	NoPanic   bool            // claim: no reachable panic instruction / bounds failure
-	Safety    bool            // generate bounds/nil/div obligations
-	File      string
-	Line      int
+	Pkg        string // package name of the file the contract was read from
+	Key        string // canonical short function name
+	Props      []string
+	Requires   []Clause
+	Ensures    []Clause
+	Modifies   []ModTarget // nil: unspecified
+	HasMod     bool
+	Loops      map[int]*LoopSpec
+	Asserts    []PointAssert
+	Trusted    bool
+	Inline     bool
+	Terminates bool            // termination obligations: loop measures and recursion measure
+	Decreases  *Clause         // function-level measure for (self-)recursive calls
+	GhostSets  []GhostSet      // ghost assignments performed on entry (specification state updated by this function)
+	OwnReads   []string        // heap key prefixes: plain loads from these keys must read objects allocated by this activation
+	AtomicOnly []string        // captured variables of a goroutine body that may only be accessed through sync/atomic: no plain load or store may touch their cell
+	OwnWrites  []string        // heap key prefixes: stores into these keys must target objects allocated by this activation
+	Calls      []string        // parameters holding functions the callee may invoke: their write sets are added at call sites
+	Reveal     map[string]bool // opaque spec functions unfolded while verifying this function
+	NoPanic    bool            // claim: no reachable panic instruction / bounds failure
+	Safety     bool            // generate bounds/nil/div obligations
+	File       string
+	Line       int
 }
 
 type GhostSet struct {
@@ -124,7 +128,7 @@ func newContractSet() *ContractSet {
 	return &ContractSet{Funcs: map[string]*FuncContract{}, Specs: map[string]*SpecFunc{}, Axioms: map[string]*Axiom{}, Ghosts: map[string]*GhostVar{}}
 }
 
-var keywordRe = regexp.MustCompile(`^(func|property|requires|ensures|modifies|loop|assert|trusted|inline|nopanic|safety|spec|axiom|lemma|invariant|ghostset|ghost|use|reveal|calls|ownwrites|package)\b`)
+var keywordRe = regexp.MustCompile(`^(func|property|requires|ensures|modifies|loop|assert|trusted|inline|nopanic|safety|spec|axiom|lemma|invariant|ghostset|ghost|use|reveal|calls|ownwrites|ownreads|atomiconly|terminates|decreases|package)\b`)
 var labelRe = regexp.MustCompile(`^\[([A-Za-z0-9_.<>=%+\-]+)\]\s*(.*)$`)
 
 func canonFuncName(pkg, decl string) string {
@@ -331,11 +335,34 @@ func (cs *ContractSet) parseFile(path string, defaultPkg string) error {
 				return fmt.Errorf("%s:%d: ownwrites outside func", path, it.line)
 			}
 			cur.OwnWrites = append(cur.OwnWrites, strings.Fields(it.text)...)
+		case "ownreads":
+			if cur == nil {
+				return fmt.Errorf("%s:%d: ownreads outside func", path, it.line)
+			}
+			cur.OwnReads = append(cur.OwnReads, strings.Fields(it.text)...)
+		case "atomiconly":
+			if cur == nil {
+				return fmt.Errorf("%s:%d: atomiconly outside func", path, it.line)
+			}
+			cur.AtomicOnly = append(cur.AtomicOnly, strings.Fields(strings.ReplaceAll(it.text, ",", " "))...)
 		case "calls":
 			if cur == nil {
 				return fmt.Errorf("%s:%d: calls outside func", path, it.line)
 			}
 			cur.Calls = append(cur.Calls, strings.Fields(strings.ReplaceAll(it.text, ",", " "))...)
+		case "terminates":
+			// every loop of the function (and of the callees inlined into it) needs a decreases clause, except
+			// range loops over slices; a recursive call needs the function-level measure to decrease
+			cur.Terminates = true
+		case "decreases":
+			if cur == nil {
+				return fmt.Errorf("%s:%d: decreases outside func", path, it.line)
+			}
+			c, err := mkClause(it.text, it.line)
+			if err != nil {
+				return err
+			}
+			cur.Decreases = &c
 		case "inline":
 			cur.Inline = true
 		case "nopanic":
